@@ -1,7 +1,8 @@
 #!/bin/bash
-# round 5: verify sub-agent changes I and J (4 at a time) and run all quick checks against them
+# round 5: verify sub-agent changes I and J (several at a time); OWN=1 runs only the check of the
+# change's own property (time budget), otherwise all quick checks
 cd "$(dirname "$0")/.."
 ls /tmp/mut/*/_out/[IJ].diff 2>/dev/null | while read f; do
   p=$(basename $(dirname $(dirname $f))); x=$(basename $f .diff)
   [ -f seeded/${p}_$x/meta.json ] || echo "$p $x"
-done | xargs -P ${PAR:-4} -L 1 sh -c 'python3 tools/seeded_verify.py $0 $1 2>&1 | tail -4'
+done | xargs -P ${PAR:-5} -L 1 sh -c 'if [ -n "$OWN" ]; then python3 tools/seeded_verify.py $0 $1 --props $0 2>&1 | tail -3; else python3 tools/seeded_verify.py $0 $1 2>&1 | tail -3; fi'
